@@ -69,6 +69,12 @@ class _Canon(ast.NodeTransformer):
         self.generic_visit(n)
         return n
 
+    def visit_Slice(self, n: ast.Slice):
+        self.generic_visit(n)
+        lo = None if (isinstance(n.lower, ast.Constant) and n.lower.value == 0) else n.lower
+        st = None if (isinstance(n.step, ast.Constant) and n.step.value == 1) else n.step
+        return ast.Slice(lower=lo, upper=n.upper, step=st)
+
     def visit_AnnAssign(self, n: ast.AnnAssign):
         self.generic_visit(n)
         if n.value is not None:
@@ -119,15 +125,16 @@ def _diff(a, b, names: dict, rnames: dict, out: list, in_msg=False) -> bool:
             out.append(("operator", type(a).__name__, type(b).__name__))
             return True
         # `x` against `x - 1` / `x + 1`: the same operand with a constant offset is a leaf (an off-by-one), not another shape
+        # a term more or less: `x + e` / `x - e` against `x` differ unless e is zero
         for with_off, plain, flip in ((a, b, False), (b, a, True)):
-            if isinstance(with_off, ast.BinOp) and isinstance(with_off.op, (ast.Add, ast.Sub)) and isinstance(with_off.right, ast.Constant) \
-                    and isinstance(with_off.right.value, int) and not isinstance(with_off.right.value, bool) and with_off.right.value != 0 \
-                    and isinstance(plain, (ast.Name, ast.Attribute, ast.Subscript)):
+            if isinstance(with_off, ast.BinOp) and isinstance(with_off.op, (ast.Add, ast.Sub)) \
+                    and not (isinstance(with_off.right, ast.Constant) and with_off.right.value == 0) \
+                    and isinstance(plain, (ast.Name, ast.Attribute, ast.Subscript, ast.Call)):
                 n1, r1, o1 = dict(names), dict(rnames), []
                 ok = _diff(plain, with_off.left, n1, r1, o1, in_msg) if flip else _diff(with_off.left, plain, n1, r1, o1, in_msg)
                 if ok and not o1:
                     names.update(n1); rnames.update(r1)
-                    out.append(("offset", ast.unparse(a), ast.unparse(b)))
+                    out.append(("offset" if isinstance(with_off.right, ast.Constant) else "term", ast.unparse(a), ast.unparse(b)))
                     return True
         return False
     if isinstance(a, ast.Name):
@@ -222,6 +229,39 @@ def _diff(a, b, names: dict, rnames: dict, out: list, in_msg=False) -> bool:
             out.append(("argument", ast.unparse(a), ast.unparse(b)))
             return True
         return False
+    if isinstance(a, ast.Subscript) and _literal_index(a.slice) and _literal_index(b.slice) and ast.dump(a.slice) != ast.dump(b.slice):
+        # `x[0]` against `x[:-1]`, `x[1:]` against `x[:-1]`: another literal index/slice of the same thing is a leaf
+        n1, r1, o1 = dict(names), dict(rnames), []
+        if _diff(a.value, b.value, n1, r1, o1, in_msg):
+            names.update(n1); rnames.update(r1); out.extend(o1)
+            out.append(("subscript", ast.unparse(a), ast.unparse(b)))
+            return True
+        return False
+    if isinstance(a, ast.Call) and len(a.args) == len(b.args) >= 2 and len(a.keywords) == len(b.keywords) and not getattr(a, "_argswap", False):
+        n1, r1, o1 = dict(names), dict(rnames), []
+        a._argswap = True
+        try:
+            straight = _diff(a, b, n1, r1, o1, msg)
+            if straight and not o1:
+                names.update(n1); rnames.update(r1)
+                return True
+            # the same arguments in another order (two exchanged)?
+            for i in range(len(a.args)):
+                for j in range(i + 1, len(a.args)):
+                    sw = list(a.args)
+                    sw[i], sw[j] = sw[j], sw[i]
+                    a2 = ast.Call(func=a.func, args=sw, keywords=a.keywords)
+                    a2._argswap = True
+                    n2, r2, o2 = dict(names), dict(rnames), []
+                    if _diff(a2, b, n2, r2, o2, msg) and not o2:
+                        names.update(n2); rnames.update(r2)
+                        out.append(("arguments", f"{ast.unparse(a.args[i])}, {ast.unparse(a.args[j])} exchanged in {ast.unparse(a)[:60]}", ast.unparse(b)[:60]))
+                        return True
+            if straight:
+                names.update(n1); rnames.update(r1); out.extend(o1)
+            return straight
+        finally:
+            a._argswap = False
     for (fa, va), (fb, vb) in zip(ast.iter_fields(a), ast.iter_fields(b)):
         if fa in ("ctx", "type_comment", "lineno", "col_offset", "end_lineno", "end_col_offset", "kind", "returns", "decorator_list", "annotation"):
             continue
@@ -244,6 +284,19 @@ def _diff(a, b, names: dict, rnames: dict, out: list, in_msg=False) -> bool:
         elif va != vb:
             out.append(("value", repr(va), repr(vb)))
     return True
+
+
+def _literal_index(e) -> bool:
+    """an index / slice / tuple of them written with integer literals only (`0`, `-1`, `1:`, `:-1`, `::2`, `..., 0`)"""
+    if isinstance(e, ast.Constant):
+        return isinstance(e.value, int) or e.value is Ellipsis
+    if isinstance(e, ast.UnaryOp) and isinstance(e.op, ast.USub):
+        return _literal_index(e.operand)
+    if isinstance(e, ast.Slice):
+        return all(x is None or _literal_index(x) for x in (e.lower, e.upper, e.step))
+    if isinstance(e, ast.Tuple):
+        return all(_literal_index(x) for x in e.elts)
+    return False
 
 
 def compare(actual: Union[ast.AST, str, None], expected: Union[ast.AST, str], fixed_names: Iterable[str] = ()) -> tuple:
